@@ -518,17 +518,32 @@ def run_property(pid, tier, seed, replay=None):
     distinct = 0
     broken = None
     n_jobs = 0
+    model_ok = True
     try:
-        translate()
+        # A broken tie (translator pattern no longer matches, theorem no longer checks, model no
+        # longer builds) does not end the run: the search for a concrete failing input goes on
+        # with the last good generated files, and without the model if it cannot be built
+        # (the harness-side decision predicates still apply).
+        try:
+            translate()
+        except Broken as b:
+            broken = b
         build_harness(fresh_tables=(tier == "thorough" and cfg.get("fresh_tables", False)))
-        translate_build_tables()
+        try:
+            translate_build_tables()
+        except Broken as b:
+            broken = broken or b
         for hook in cfg.get("pre", ()):
             hook(sys.modules[__name__])
         try:
             thm = check_theorems(pid)
         except Broken as b:
-            broken = b
-        build_runner()
+            broken = broken or b
+        try:
+            build_runner()
+        except Broken as b:
+            broken = broken or b
+            model_ok = os.path.exists(RUNNER_BIN)    # a runner from the last good model, if any
         zob = os.path.join(wdir, "zobrist.txt")
         rc, err = harness_cmd(["zobrist"], zob)
         if rc != 0:
@@ -555,6 +570,8 @@ def run_property(pid, tier, seed, replay=None):
             rc, err = harness_cmd(args, sf)
             if rc != 0:
                 return name, Broken("harness run failed: %s" % " ".join(args), err), None
+            if not model_ok:
+                return name, None, (sf, None)
             rc, err = runner_cmd(zob, sf, mf)
             if rc != 0:
                 return name, Broken("model runner failed on %s" % name, err), None
@@ -566,7 +583,15 @@ def run_property(pid, tier, seed, replay=None):
             if err is not None:
                 failures.append(Failure("tie", pid, err.what + ": " + err.detail[-300:], []))
                 continue
-            f, n, st, smp, irecs = compare(pid, files[0], files[1], cfg)
+            if files[1] is None:
+                # no model: only the decision predicates evaluated by the harness itself
+                irecs, st, iloose = parse_records(files[0])
+                f = [Failure("property", pid, b, []) for b in iloose if b.startswith(pid + " ")]
+                for i, r in enumerate(irecs):
+                    f.extend(Failure("property", pid, b, episode_prefix(irecs, i), r["obs"], None) for b in r["bangs"] if b.startswith(pid + " "))
+                n, smp = len(irecs), []
+            else:
+                f, n, st, smp, irecs = compare(pid, files[0], files[1], cfg)
             failures.extend(f)
             total_ops += n
             stats_lines.extend(st)
